@@ -200,13 +200,13 @@ type PathRecord struct {
 }
 
 type ObSummary struct {
-	Name      string     `json:"name"`
-	Paths     int        `json:"paths"`
-	Unsat     int        `json:"unsat"`
-	Sat       int        `json:"sat"`
-	Unknown   int        `json:"unknown"`
-	BySolver  map[string]int `json:"by_solver"`
-	FirstSat  *ObResult  `json:"first_sat,omitempty"`
+	Name     string         `json:"name"`
+	Paths    int            `json:"paths"`
+	Unsat    int            `json:"unsat"`
+	Sat      int            `json:"sat"`
+	Unknown  int            `json:"unknown"`
+	BySolver map[string]int `json:"by_solver"`
+	FirstSat *ObResult      `json:"first_sat,omitempty"`
 }
 
 type HarnessResult struct {
